@@ -178,6 +178,18 @@ def run_unit(unit, ctx):
                 R.add([K.V(key, f"generated {which} driver rc={res['rc']}: {res['out'][-300:]} {res['err'][-1500:]}", **w)])
                 continue
             R.stats.inc("sanitizer_runs_clean")
+            if ctx["tier"] == "thorough" and i % 8 == 0 and which == "ekf":
+                # un-instrumented -O0 build under valgrind memcheck: sees uninitialised scalars that
+                # neither ASan nor the NaN-poisoned matrices would
+                ok_v, err_v = cppdrv.compile_cpp(eb.scratch, ["gen.cpp", "drv.cpp"], out="drv_vg", compiler="g++",
+                                                 sanitize=False, opt="-O0")
+                if ok_v:
+                    rv = cppdrv.run_bin(eb.scratch, "drv_vg", "\n".join(cmds) + "\n", timeout=600, valgrind=True)
+                    R.stats.inc("valgrind_runs")
+                    if rv["rc"] != 0 or "== ERROR SUMMARY" in rv["err"] and "ERROR SUMMARY: 0" not in rv["err"]:
+                        R.add([K.V("cpp:valgrind", f"valgrind memcheck reported errors (rc={rv['rc']}): {rv['err'][-1500:]}", **w)])
+                    else:
+                        R.stats.inc("valgrind_runs_clean")
             for key, txt in eb.check_cfg(res["lines"][0], cfg):
                 R.add([K.V(key, f"{which}: {txt}", **w)])
             R.stats.inc("generated_constants_checked")
